@@ -74,6 +74,8 @@ type ReqInfo struct {
 	saving    int // entry object this request is handing to the store
 }
 
+var inProcessServer = &http.Server{}
+
 // manualDeadline a request context whose deadline "passes" when the script says so
 type manualDeadline struct {
 	context.Context
@@ -549,6 +551,8 @@ func (w *World) DoBody(proc, disp, method, host, uri string, hdr http.Header, cs
 		req.Header[k] = v
 	}
 	req.Header.Set("X-Verif-Rid", strconv.Itoa(ri.Rid))
+	// as for every request that arrives through a listening http.Server
+	req = req.WithContext(context.WithValue(req.Context(), http.ServerContextKey, inProcessServer))
 	if proc != "" {
 		// the proxy's timer, in the hands of the script: outcome "timeout" fires it
 		ri.timer = &manualDeadline{Context: req.Context(), done: make(chan struct{})}
@@ -921,6 +925,23 @@ func (w *World) upstreamHandler(rw http.ResponseWriter, req *http.Request) {
 	}
 	if out.Kind == "" {
 		out.Kind = "uncacheable"
+	}
+	if out.Kind == "cut" {
+		// the origin announces a body and breaks the connection half way through it
+		w.mu.Lock()
+		w.emitLocked(Event{"op": "UpEnd", "r": ri.Rid, "hasResp": false, "ttl": 0})
+		w.mu.Unlock()
+		h := rw.Header()
+		for k, v := range out.Header {
+			h[k] = v
+		}
+		h.Set("Content-Length", strconv.Itoa(len(out.Body)))
+		rw.WriteHeader(200)
+		_, _ = rw.Write(out.Body[:len(out.Body)/2])
+		if f, ok := rw.(http.Flusher); ok {
+			f.Flush()
+		}
+		panic(http.ErrAbortHandler)
 	}
 	if out.Kind == "panic" {
 		// the origin answers, but the handler chain of pike panics on the way back (harness middleware): for the
